@@ -94,6 +94,9 @@ type codecRun struct {
 	xorDec  *encoding.XORDecoder
 	sr      *stream.Reader
 	counts  map[string]int
+	snapHeld  []byte
+	snapHeldB int
+	snapHeldW compress.Writer
 }
 
 type codecFo struct {
@@ -1022,6 +1025,16 @@ func (r *codecRun) snappyOp() {
 		out = []byte("error:" + err.Error())
 	}
 	r.emit("BatDec", trace.F{"codec": "snappy", "b": b, "out": bytesToInts(out)})
+	// a chunk handed out earlier by the SAME writer is still held by its consumer (the replication channel
+	// queues compressed chunks): it must still decode to what was written into it
+	if r.snapHeldW == w && r.snapHeld != nil {
+		old, err := rd.Uncompress(r.snapHeld)
+		if err != nil {
+			old = []byte("error:" + err.Error())
+		}
+		r.emit("BatDec", trace.F{"codec": "snappy", "b": r.snapHeldB, "out": bytesToInts(old)})
+	}
+	r.snapHeld, r.snapHeldB, r.snapHeldW = data, b, w
 }
 
 // the XOR value codec alone, over one reused bit writer / reader pair
@@ -1296,6 +1309,7 @@ func (r *codecRun) history(h, ops int) {
 		mode = "maxslot"
 	}
 	r.rec.Reset(trace.F{"h": h, "mode": mode})
+	r.snapHeld, r.snapHeldW = nil, nil
 	if r.maxslot {
 		r.guarded(func() { r.maxslotHistory() })
 		return
@@ -1443,6 +1457,7 @@ func (r *codecRun) loadedDec() *codecDec {
 // batch: a history of batch codecs only (they are cheap to validate, so they get their own budget)
 func (r *codecRun) batchHistory(h, ops int) {
 	r.rec.Reset(trace.F{"h": h, "mode": "batch"})
+	r.snapHeld, r.snapHeldW = nil, nil
 	for i := 0; i < ops; i++ {
 		if r.guarded(func() { r.batchOp() }) {
 			return
